@@ -145,7 +145,7 @@ def generate(chk: Check) -> dict[str, Any]:
         allow_violation=True,
     )
     wraps = 3 if thorough else 2
-    pl = ["int", "str", "datetime", "bool"] if thorough else ["int", "str"]
+    pl = ["int", "str", "datetime", "bool"] if thorough else ["int"]
     gen_runs = [("single", [a], ["plain"]) for a in ("plain", "camel", "kw")] + [
         ("pair", ["plain"], ps) for ps in (["plain", "camel", "kw"], ["fold", "swap"], ["diff", "ident"])
     ]
@@ -163,8 +163,8 @@ def generate(chk: Check) -> dict[str, Any]:
         tagname = f"MC_Codec[D={fam[0]},A={fam[1]},len<={fam[2]},{'+'.join(fam[3]) or 'base'}]"
         chk.add_tlc(tagname, r)
         chk.require(r.ok, f"design model {tagname} violates {r.violated}")
-        nxt = r.coverage.get("Next", (0, 0))[1]
-        chk.require(nxt > 0 and r.distinct > 1, f"vacuous design run {tagname}")
+        for act in ("DoStructure", "DoUnstructure"):
+            chk.require(r.coverage.get(act, (0, 0))[1] > 0, f"vacuous design run {tagname}: action {act} never taken")
         scen = r.printed.get("SCEN", [])
         hs = r.printed.get("HIST", [])
         chk.require(len(scen) == 1 and len(hs) > 0, f"{tagname}: no histories emitted")
@@ -295,9 +295,88 @@ def monitor(chk: Check, traces: list[dict], label: str, scratch: core.Scratch) -
     return [r, vs]
 
 
-def judge(chk: Check, traces: list[dict]) -> None:
+def _first_leaf(tree: Any) -> dict | None:
+    """first leaf node ({"t": s|i|f|b, "v": ...}) of a tagged tree, depth first"""
+    if isinstance(tree, dict):
+        if tree.get("t") in ("s", "i", "f", "b") and "v" in tree:
+            return tree
+        for v in tree.values():
+            r = _first_leaf(v)
+            if r is not None:
+                return r
+    elif isinstance(tree, list):
+        for v in tree:
+            r = _first_leaf(v)
+            if r is not None:
+                return r
+    return None
+
+
+def negative_controls(traces: list[dict]) -> list[tuple[dict, str]]:
+    """Recorded traces with ONE observation corrupted; the monitor must reject each with the named clause
+    (otherwise the run is a machinery failure: a monitor that accepts these would accept anything)."""
+    cp = lambda x: json.loads(json.dumps(x))  # noqa: E731
+    out: list[tuple[dict, str]] = []
+    rt = next((t for t in traces if t["kind"] == "rt" and any(e["k"] == "rt" and e["out"].get("t") == "o" and _first_leaf(e["out"]) for e in t["ev"])), None)
+    if rt is not None:
+        i = next(i for i, e in enumerate(rt["ev"]) if e["k"] == "rt" and e["out"].get("t") == "o" and _first_leaf(e["out"]))
+        t = cp(rt)
+        t["ev"] = [t["ev"][i]]
+        t["id"] = "NEG/dec_enc"
+        _first_leaf(t["ev"][0]["out"])["v"] = "corrupted"
+        out.append((t, "C16.dec_enc"))
+        t = cp(rt)
+        t["ev"] = [t["ev"][i]]
+        t["id"] = "NEG/enc_dec"
+        t["ev"][0]["v2"] = {"t": "none"}
+        out.append((t, "C16.enc_dec"))
+        t = cp(rt)
+        t["ev"] = [t["ev"][i]]
+        t["id"] = "NEG/null_key"
+        t["ev"][0]["ser"] = {"t": "o", "f": {"zz": {"t": "n"}}}
+        out.append((t, "C16.serializer_null_key"))
+    bad = next((t for t in traces if t["kind"] == "rt" and any(e["k"] == "bad" and e["res"]["t"] == "exc" and e["res"]["isvalue"] and any(s["kind"] == "field" for s in e["steps"]) for e in t["ev"])), None)
+    if bad is not None:
+        i = next(i for i, e in enumerate(bad["ev"]) if e["k"] == "bad" and e["res"]["t"] == "exc" and e["res"]["isvalue"] and any(s["kind"] == "field" for s in e["steps"]))
+        for ident, clause in (("error_not_raised", "C16.error_not_raised"), ("error_type", "C16.error_type"), ("error_no_field", "C16.error_no_field")):
+            t = cp(bad)
+            t["ev"] = [t["ev"][i]]
+            t["id"] = f"NEG/{ident}"
+            if ident == "error_not_raised":
+                t["ev"][0]["res"] = {"t": "ok", "val": {"t": "none"}}
+            elif ident == "error_type":
+                t["ev"][0]["res"]["isvalue"] = False
+                t["ev"][0]["res"]["exc"] = "TypeError"
+            else:
+                t["ev"][0]["res"]["words"] = ["Failed", "to", "convert"]
+            out.append((t, clause))
+    hi = next((t for t in traces if t["kind"] == "hist" and len(t["h"]) >= 2), None)
+    if hi is not None:
+        t = cp(hi)
+        t["id"] = "NEG/history"
+        t["res"][-1] = {"t": "exc", "exc": "ValueError", "isvalue": True, "msg": "corrupted", "words": []}
+        out.append((t, "C16.history_dependent"))
+    se = next((t for t in traces if t["kind"] == "ser"), None)
+    if se is not None:
+        t = cp(se)
+        t["id"] = "NEG/diverges"
+        t["ev"] = [cp(t["ev"][0])]
+        t["ev"][0]["g"] = {"n": 1, "root": "node", "edges": []}
+        t["ev"][0]["res"] = {"t": "exc", "exc": "Timeout", "isvalue": False, "msg": "", "words": []}
+        out.append((t, "C16.serializer_diverges"))
+        t = cp(t)
+        t["id"] = "NEG/lossy"
+        t["ev"][0]["res"] = {"t": "o", "f": []}
+        out.append((t, "C16.serializer_lossy"))
+    return out
+
+
+def judge(chk: Check, traces: list[dict], controls: bool = True) -> None:
     if not traces:
         return
+    neg = negative_controls(traces) if controls else []
+    expect_neg = {t["id"]: clause for t, clause in neg}
+    traces = traces + [t for t, _ in neg]
     # split into a few monitor runs that proceed concurrently
     groups: dict[str, list[dict]] = {}
     rt = [t for t in traces if t["kind"] == "rt"]
@@ -315,6 +394,12 @@ def judge(chk: Check, traces: list[dict]) -> None:
         chk.add_tlc(f"Trace_Codec[{k}]", r)
         chk.cov["traces_validated_against_impl"] += len(vs)
         for v in vs:
+            if v["id"] in expect_neg:
+                got = {fl["clause"] for fl in v["fails"]}
+                chk.require(expect_neg[v["id"]] in got, f"negative control {v['id']} was not rejected with {expect_neg[v['id']]} (got {sorted(got)})")
+                chk.cov["negative_controls_rejected"] = chk.cov.get("negative_controls_rejected", 0) + 1
+                chk.cov["traces_validated_against_impl"] -= 1
+                continue
             t = by_id[v["id"]]
             n = v["n"]
             ndrift += v["ndrift"]
@@ -433,6 +518,6 @@ def replay(chk: Check, path: str) -> None:
         traces = drive_hist(chk, [{"classes": sc["classes"], "calls": sc["calls"], "hists": [{"h": sc["h"]}]}])
     for t in traces:
         print("TRACE", json.dumps(t)[:3000])
-    judge(chk, traces)
+    judge(chk, traces, controls=False)
     for f in chk.fails:
         print("REPLAY-FAIL", f["clause"], json.dumps(f["locus"], sort_keys=True), f["detail"][:400])
